@@ -11,6 +11,7 @@
 From Coq Require Import NArith ZArith List Bool.
 From ST Require Import Base.Outcome Base.Units Gen.Tables Codec.Spec Codec.Model.
 From ST Require Codec.ProofsTables Codec.ProofsSpec Codec.ProofsEnc Codec.ProofsC14 Codec.ProofsExamples.
+From ST Require Codec.LeafBridge Gen.Leaf.
 Import ListNotations.
 Local Open Scope N_scope.
 
@@ -164,3 +165,12 @@ Example hypotheses_satisfiable :
 Proof. exact ProofsExamples.nonvac_bytes. Qed.
 Example null_hypothesis_satisfiable : (3 <> 0)%nat.
 Proof. exact ProofsExamples.nonvac_null_ptr. Qed.
+
+(* ---- tie by translation: the leaf functions below are translated from the clang AST of the CURRENT headers into
+   Gen/Leaf.v on every run (tools/leaf_translate.py: C++ integer semantics written out over Z); the hand-written
+   model functions used by every theorem above compute the same values, so an edit to one of these functions in the
+   headers breaks this obligation whatever the test generators do ---- *)
+Theorem encode_size_matches_source : forall n, (Z.of_nat n < 2 ^ 62)%Z ->
+  ST.Gen.Leaf.src_b64_encode_size (Z.of_nat n) = Z.of_nat (b64_encode_size n).
+Proof. exact ST.Codec.LeafBridge.b64_encode_size_matches_source. Qed.
+Print Assumptions encode_size_matches_source.
